@@ -32,6 +32,11 @@ Formats ==
   {<<d>> : d \in Directives} \cup
   {<<Lit(91), d, Lit(93), Lit(233)>> : d \in {x \in Directives : x.flags = <<>> /\ x.width < 0}} \cup
   {<<Dv(<<>>, 0 - 1, a), Lit(45), Dv(<<>>, 0 - 1, b)>> : a \in {"Y", "j", "a", "L"}, b \in {"m", "V", "N", "Q"}} \cup
+  \* a flagged (or case-changing composite) directive followed by plain ones: flags, case and padding are per directive
+  {<<Dv(fl, 0 - 1, a), Lit(32), Dv(<<>>, 0 - 1, b)>> : fl \in {<<"^">>, <<"#">>, <<"-">>, <<"0">>, <<"_">>}, a \in {"a", "B", "d", "v", "p", "e"},
+                                                     b \in {"B", "a", "p", "P", "Z", "d", "c", "v", "b", "e", "H"}} \cup
+  {<<Dv(<<"^">>, 6, "b"), Dv(<<>>, 0 - 1, "d"), Lit(32), Dv(<<>>, 0 - 1, "A"), Dv(<<"#">>, 0 - 1, "p"), Dv(<<>>, 0 - 1, "B")>>,
+   <<Dv(<<>>, 0 - 1, "v"), Lit(32), Dv(<<>>, 0 - 1, "b"), Lit(32), Dv(<<>>, 3, "d"), Dv(<<>>, 0 - 1, "e")>>} \cup
   {<<Trailing>>, <<Lit(97), Trailing>>, <<Dv(<<>>, 0 - 1, "Y"), Trailing>>, <<>>, <<Lit(233), Lit(128512)>>,
    <<[flags |-> <<>>, width |-> 0 - 1, ch |-> 233]>>,              \* %e-acute : an unknown non-ASCII directive is echoed
    <<[flags |-> <<>>, width |-> 0 - 1, ch |-> 128512], Lit(120)>>}
